@@ -116,8 +116,17 @@ class C15(core.Check):
                     s.execute('SAVE "TB"')
                     s.execute('SAVE "TP",P')
                     s.execute('SAVE "TA",A')
+                    # same-session history (seed C15c): after LIST/SAVE the code pointer stands deep in the buffer; NEW and
+                    # LOAD must still leave exactly the new program in memory, so what is saved next is the same file
+                    s.execute('NEW')
+                    s.execute('1 REM')
+                    s.execute('SAVE "TS"')
+                    s.execute('LOAD "TB"')
+                    s.execute('SAVE "TB2"')
+                    s.execute('LOAD "TP"')
+                    s.execute('SAVE "TP2",P')
             files = {}
-            for nm in ('TB.BAS', 'TP.BAS', 'TA.BAS'):
+            for nm in ('TB.BAS', 'TP.BAS', 'TA.BAS', 'TS.BAS', 'TB2.BAS', 'TP2.BAS'):
                 p = os.path.join(d, nm)
                 files[nm] = open(p, 'rb').read() if os.path.exists(p) else None
             loaded = {}
@@ -275,6 +284,27 @@ class C15(core.Check):
             return 'ASCII SAVE/LOAD changed a program whose listing re-enters identically'
         if c4[:self.prog_end(c4)] == code[:prog_end] and l3 != listing:
             return 'LIST after ASCII SAVE/LOAD differs from the original listing although the listing re-enters as the same program'
+        if files['TB.BAS'] is not None:
+            if self.__dict__.get('_ts') is None:
+                d0 = common.tmpdir('c15s')
+                try:
+                    with common.new_session(devices={'C': d0}, current_device='C:') as s0:
+                        s0.execute('1 REM')
+                        s0.execute('SAVE "TS"')
+                    self._ts = open(os.path.join(d0, 'TS.BAS'), 'rb').read()
+                finally:
+                    common.rmtree(d0)
+            if files['TS.BAS'] != self._ts:
+                return ('after NEW in a session with history, SAVE of the one-line program 1 REM wrote %r, a fresh session writes %r'
+                        % (files['TS.BAS'][:40] if files['TS.BAS'] else None, self._ts))
+            # K15a: a tokenised LOAD keeps the end-of-file marker, so a re-saved file may end in one more 1A
+            for a, b in (('TB.BAS', 'TB2.BAS'), ('TP.BAS', 'TP2.BAS')):
+                fa, fb2 = files[a], files[b]
+                if fa is None or fb2 is None:
+                    continue
+                if not (fb2 == fa or (len(fb2) == len(fa) + 1 and fb2[:len(fa) - 1] == fa[:-1])):
+                    return ('LOAD "%s" in the session that saved it, then SAVE again: %d bytes, the original file has %d bytes'
+                            % (a[:2], len(fb2), len(fa)))
         conv = loaded.get('CONV') or {}
         same = c4[:self.prog_end(c4)] == code[:prog_end]
         want = {('TB.BAS', 'a'): files['TA.BAS'], ('TB.BAS', 'p'): files['TP.BAS'], ('TP.BAS', 'b'): files['TB.BAS'],
